@@ -66,7 +66,9 @@ def _literalise(ctx, node, fi, env):
             base = n
             while isinstance(base, ast.Attribute):
                 base = base.value
-            if isinstance(base, ast.Name) and base.id in fi.all_params:
+            if isinstance(base, ast.Name) and base.id in fi.all_params and not (
+                    base.id in ('self', 'cls') and isinstance(n, ast.Attribute) and isinstance(n.value, ast.Name) and fi.cls is not None
+                    and ctx.prog.find_class_attr(fi.cls, n.attr) is not None):
                 return n
             ok_, v = ctx.ce.try_eval(n, fi.module, fi.cls, {})
             if ok_ and isinstance(v, (list, tuple, set, frozenset)) and v and all(isinstance(x, str) for x in v):
